@@ -1,15 +1,18 @@
 #!/bin/bash
-# usage: tools_mkmut.sh <name> <file-in-repo> <python-expr old> <new>   -- creates mutants/<name>.diff from a one-replacement edit
+# usage: tools_mkmut.sh <CNN-name> <file-relative-to-/repo> <old text> <new text>
+# Writes mutants/<CNN-name>.diff (a -p1 diff against /repo) from one textual replacement. /repo is not touched.
 set -e
 name=$1; file=$2; old=$3; new=$4
-cd /repo
-python3 - "$file" "$old" "$new" <<'PY'
+t=$(mktemp -d /dev/shm/mkmut.XXXX)
+mkdir -p $t/a/$(dirname $file) $t/b/$(dirname $file)
+cp /repo/$file $t/a/$file
+python3 - "$t/a/$file" "$t/b/$file" "$old" "$new" <<'PY'
 import sys
-p,old,new=sys.argv[1:4]
-s=open(p).read()
+src,dst,old,new=sys.argv[1:5]
+s=open(src).read()
 assert s.count(old)>=1, "pattern not found: "+old
-open(p,'w').write(s.replace(old,new,1))
+open(dst,'w').write(s.replace(old,new,1))
 PY
-git diff > /verif/mutants/$name.diff
-git checkout -- .
+(cd $t && diff -u a/$file b/$file > /verif/mutants/$name.diff || true)
+rm -rf $t
 echo "wrote /verif/mutants/$name.diff"
